@@ -94,6 +94,29 @@ func (p *Prog) applyInlining() {
 	}
 	p.flowCache = map[ast.Node]*Flow{}
 	p.inlineNotes = st.notes
+	// helpers without a remaining call are analysed only as part of their callers
+	left := map[*types.Func]bool{}
+	for _, pk := range p.ServerPkgs() {
+		for _, file := range pk.Syntax {
+			if strings.HasSuffix(p.Fset.Position(file.Pos()).Filename, "_test.go") {
+				continue
+			}
+			ast.Inspect(file, func(n ast.Node) bool {
+				if id, ok := n.(*ast.Ident); ok {
+					if fn, isFn := pk.TypesInfo.Uses[id].(*types.Func); isFn && st.isNew[fn] != nil {
+						left[fn] = true
+					}
+				}
+				return true
+			})
+		}
+	}
+	p.inlinedAway = map[*types.Func]bool{}
+	for fn := range st.isNew {
+		if !left[fn] {
+			p.inlinedAway[fn] = true
+		}
+	}
 }
 
 func inlinable(fi *FuncInfo) (ok bool, tailOnly bool) {
